@@ -1,4 +1,4 @@
-import Varpulis.Lemmas.Ckpt
+import Varpulis.Lemmas.CkptJoin
 /-!
 # C19 — checkpoint and restore are invisible in the output
 
@@ -21,7 +21,7 @@ distinct, limit, variables, watermarks, composed into the engine-level statement
 invariants of hash maps and heaps are premises; they hold of every reachable state).
 -/
 namespace Varpulis.Props.C19
-open Varpulis.Ckpt Varpulis.Ckpt.Witness
+open Varpulis.Ckpt Varpulis.Ckpt.Witness Varpulis.Join
 
 /-! ## windows: all ten operators, every continuation
 
@@ -111,6 +111,85 @@ event with a sub-millisecond timestamp) -/
 theorem join_restore_partial (c : JoinCfg) (windowNs : Int) (j : JoinSt) (h : j.WF) (hw : j.Whole) :
     (decJoin (wire (encJoin (j.ckpt c)))).map (JoinSt.restore windowNs) = some j := by
   rw [wire_clean _ (clean_encJoin _), decJoin_encJoin]; simp [join_rt c windowNs j h hw]
+
+/-! ## join buffer, end to end over the C15 model of `add_event`
+
+`Varpulis.Join` (agent a4, Model/Join.lean) mirrors `add_event` / `cleanup_expired` /
+`try_correlate`. Over that state the two structural premises of `join_restore_partial` hold by
+construction (an event carries its own timestamp; the expiry queue is a list whose order provably
+does not matter), and the whole-millisecond guard is an invariant of `add_event`, so for states
+*reached from the empty buffer* no premise about the state is left. -/
+
+/-- checkpoint (queue listed in any order `qo` the heap iterates) then restore gives a state that
+`add_event` cannot tell from the original: same vector per (source, key) **in arrival order**,
+same pending expiries, same last GC time -/
+theorem join_restore_equiv (s : Join.St) (qo : List (Int × Nat × Nat)) (hp : qo.Perm s.queue) (hw : JWhole s) :
+    JEq (jrestore (jckpt s qo)) s := jrestore_jckpt s qo hp hw
+
+/-- **C19 for joins, end to end**: after any history `hist` of `add_event` calls whose events carry
+whole-millisecond timestamps, checkpointing and restoring the buffer is invisible: every
+continuation `ops` (any timestamps, any arrival order, GC runs and cap evictions included) yields
+the same joined outputs from the restored buffer as from the original one -/
+theorem join_obs_equiv (c : Join.Cfg) (hist ops : List Arr) (hw : ∀ a ∈ hist, wholeTs a.ev.ts = true)
+    (qo : List (Int × Nat × Nat)) (hp : qo.Perm (Join.run c St.init hist).queue) :
+    jouts c (jrestore (jckpt (Join.run c St.init hist) qo)) ops = jouts c (Join.run c St.init hist) ops :=
+  jouts_congr c ops _ _ (jrestore_jckpt _ qo hp (jwhole_run c hist St.init jwhole_init hw))
+
+/-- **counterexample** without the guard (finding `C20-submillisecond-event-timestamps`): A@0.5 ms
+is buffered; B@1000.3 ms joins it within the 1 s window — but not after a restore, which has moved
+A to 0 ms, outside the cut-off 0.3 ms -/
+theorem join_submillisecond_counterexample :
+    let c : Join.Cfg := { sources := [0, 1], window := 1000000000, maxPerKey := 1000 }
+    let s := Join.run c St.init [⟨0, 7, ⟨500000, 1⟩⟩]
+    let b : Arr := ⟨1, 7, ⟨1000300000, 2⟩⟩
+    jouts c s [b] = [some [(0, ⟨500000, 1⟩), (1, ⟨1000300000, 2⟩)]]
+      ∧ jouts c (jrestore (jckpt s s.queue)) [b] = [none] := by
+  decide
+
+/-! ## watermark tracker, concrete -/
+
+/-- the tracker comes back exactly — watermarks and maximum timestamps to the nanosecond (no
+whole-millisecond premise: the repair `a716ea8` stores the remainders). `h0`: the sources the
+program registers are among the tracker's (see `tracker_sources_stay`); `hi`: the engine records an
+applied watermark as soon as there is an effective one -/
+theorem tracker_restore (w : WmSt) (src0 : List (String × SrcWm))
+    (h0 : ∀ kv ∈ src0, kv.1 ∈ w.sources.map (·.1)) (hi : w.lastApplied = none → w.effective = none) :
+    (decWm (wire (encWm w.ckpt))).map (WmSt.restore src0) = some w := by
+  rw [wire_clean _ (clean_encWm _), decWm_encWm]; simp [wm_restore_eq w src0 h0 hi]
+
+/-- **C19 for the watermark tracker**: checkpoint → JSON → restore into the freshly loaded tracker
+is invisible for every continuation of `observe_event` / `advance_source_watermark` operations:
+the same effective watermark after every operation -/
+theorem tracker_obs_equiv (w : WmSt) (src0 : List (String × SrcWm))
+    (h0 : ∀ kv ∈ src0, kv.1 ∈ w.sources.map (·.1)) (hi : w.lastApplied = none → w.effective = none)
+    (ops : List WmOp) :
+    (decWm (wire (encWm w.ckpt))).map (fun c => runOps WmSt.step (WmSt.restore src0 c) ops)
+      = some (runOps WmSt.step w ops) := by
+  have h := tracker_restore w src0 h0 hi
+  cases hd : decWm (wire (encWm w.ckpt)) with
+  | none => simp [hd] at h
+  | some c => simp only [hd, Option.map_some, Option.some.injEq] at h ⊢; rw [h]
+
+/-- the premise `h0` holds of every tracker state reached from the freshly loaded one: sources are
+never removed -/
+theorem tracker_sources_stay (src0 : List (String × SrcWm)) (ops : List WmOp) :
+    ∀ kv ∈ src0, kv.1 ∈ (ops.foldl (fun w op => (w.step op).1)
+      ({ sources := src0, effective := none, lastApplied := none } : WmSt)).sources.map (·.1) := by
+  intro kv hkv
+  exact keys_run ops _ kv.1 (List.mem_map_of_mem (f := (·.1)) hkv)
+
+/-- repaired by `fix: watermark tracker timestamps were truncated to milliseconds` — the
+sub-millisecond counterexample against the restore before that repair (`SrcWm.ofCkptOld`): source T
+has seen 1.5 ms; an event at 1.2 ms does not move the original tracker, but moved the old restored
+one (maximum back at 1 ms) and dragged the effective watermark down to 1.2 ms -/
+theorem tracker_submillisecond_defect :
+    let w : WmSt := { sources := [("T", { watermark := some 1500000, maxTs := some 1500000, oooMs := 0 })],
+                      effective := some 1500000, lastApplied := some 1500000 }
+    let old : WmSt := { w with sources := w.ckpt.sources.map fun kv => (kv.1, SrcWm.ofCkptOld kv.2) }
+    (w.step (.observe "T" 1200000)).2 = some 1500000
+      ∧ (old.step (.observe "T" 1200000)).2 = some 1200000
+      ∧ ((WmSt.restore [] w.ckpt).step (.observe "T" 1200000)).2 = some 1500000 := by
+  decide
 
 /-! ## distinct, limit -/
 
